@@ -11,6 +11,7 @@ CHECKS = {
  "C05": ("exploration", "problems (CNF families incl. declared-but-unused variables and the empty problem, cardinality/PB sets) x {CountModels, Enumerate with/without channel, each also after a Solve} x heuristic choice list (<=1 deviation): count and delivered model multiset against the truth-table model set, channel closed", "§4 C05", EXPL),
  "C09": ("exploration", "all histories over {Solve, AppendClause(c)} with 1 appended constraint from the full alphabet (clauses with repeats/tautologies/fresh variable, NewCardClause, NewPBClause), 2 from a reduced alphabet under every Solve placement, 3 short clauses, on every small base problem, x heuristic choice list (<=1 deviation): every Solve against the truth table of the conjunction so far; Unsat sticky", "§4 C09", EXPL),
  "C10": ("exploration", "every sequence of <=3 rounds of Assume(list)+Solve with every list of <=2 literals (empty, repeated, contradictory) on every small base problem (with/without units, parse-time facts, parse-time Unsat) x heuristic choice list (<=1 deviation): every round against the truth table of base AND that round's assumptions", "§4 C10", EXPL),
+ "C14": ("exploration", "problems (CNF, pigeonhole as cardinality constraints with one-edit neighbours, cardinality/PB sets, with/without cost function) x {DetectAtMostOne first, not} run with CuttingPlanes on under every heuristic choice list (<=1 deviation incl. forced Luby restarts and learned-PB reductions) and once with it off: every constraint/unit handed out by the cutting-planes learner is implied (truth table, under the cost bound in force), verdict/model/optimum equal to the truth table and to the strategy-off run. Two genuine defects of the learner are recorded as known findings.", "§4 C14", EXPL),
  "C15": ("exploration", "every graph on <=5 vertices as negative binary clauses (all clause orders / repeated edges for small edge sets), with <=2 extra clauses, cliques in every sign pattern, S4 multisets, cardinality/PB problems with two-literal constraints: the Problem after DetectAtMostOne, read structurally, has exactly the input's model set; CountModels agrees", "§4 C15", EXPL),
  "C06": ("exploration", "same space as C01 with certificate generation on: every certificate replayed by an independent RUP checker, every line checked for implication by truth table, differential against the uncertified twin run", "§4 C06", EXPL),
 }
